@@ -4,6 +4,8 @@ package main
 //
 //	verify <ver> <hex id>:<hex json> <script>   -> ok | rej
 //	trace  <ver> <hex id>:<hex json> <script>   -> asked:<sorted "hexserver@ts/s<strict>/r<redacted>"> | none | -
+//	member_reading <ver> <hex id>:<hex json>    -> m=<hex membership>,via=<hex authoriser> | err
+//	    (NewMemberContentFromEvent: what the AUTH RULES take for the membership and for the authoriser of a restricted join)
 //
 // script = "<hexserver>=<0|1>,...;<default 0|1>;<verifier error 0|1>[;<hexname>=<0|1>,...]": what the verifier
 // answers per server name (1 = signature valid, 0 = error: missing / corrupted / wrong key / key not valid at that
@@ -71,7 +73,7 @@ func parseScript(s string) *scriptedVerifier {
 }
 
 func execSigners(op string, args []string) string {
-	if op != "verify" && op != "trace" {
+	if op != "verify" && op != "trace" && op != "member_reading" {
 		return "bad-op"
 	}
 	ver := args[0]
@@ -79,9 +81,33 @@ func execSigners(op string, args []string) string {
 	if err != nil {
 		return "err:construct"
 	}
+	if op == "member_reading" {
+		// the reading of the auth rules (eventauth.go: membershipAllower.newMember / NewMemberContentFromAuthEvents)
+		mc, merr := gmsl.NewMemberContentFromEvent(ev)
+		if merr != nil {
+			return "err"
+		}
+		return "m=" + hx([]byte(mc.Membership)) + ",via=" + hx([]byte(mc.AuthorisedVia))
+	}
 	sv := parseScript(args[2])
 	verr := gmsl.VerifyEventSignatures(context.Background(), ev, sv, StdQuerier)
 	if op == "verify" {
+		// The tie to the auth rules (C07), judged on the implementation itself: an event that verifies as a join which
+		// the auth rules take for authorised by some user (NewMemberContentFromEvent(e).AuthorisedVia, in a room version
+		// with restricted joins) must have needed a signature of THAT user's server.  Never an answer of the
+		// specification: it shows as impl != spec (K1: the auth rules read a case variant of the member name).
+		if verr == nil && restrictedJoinVersions[ver] && ver != pseudoVer && ev.Type() == spec.MRoomMember {
+			if mc, merr := gmsl.NewMemberContentFromEvent(ev); merr == nil && mc.Membership == spec.Join && mc.AuthorisedVia != "" {
+				_, srv, serr := gmsl.SplitID('@', mc.AuthorisedVia)
+				asked := false
+				for _, q := range sv.requests {
+					asked = asked || q.ServerName == srv
+				}
+				if serr != nil || !asked {
+					return "ok:authoriser-of-the-auth-rules-not-required"
+				}
+			}
+		}
 		return coarse(verr)
 	}
 	if !sv.called {
@@ -136,6 +162,13 @@ func mkEventWithID(r *Rng, ver, id string, fields map[string]interface{}) *Ev {
 			m[k] = v
 		}
 	}
+	// a content given as rawContent keeps its own member order, spellings and repetitions (canonicalisation
+	// would sort the members: "Membership" before "membership", "memberſhip" after it)
+	var rawc []byte
+	if rc, ok := m["content"].(rawContent); ok {
+		rawc = []byte(rc)
+		m["content"] = rawContentMark
+	}
 	raw, err := json.Marshal(m)
 	if err != nil {
 		return nil
@@ -144,6 +177,9 @@ func mkEventWithID(r *Rng, ver, id string, fields map[string]interface{}) *Ev {
 	if err != nil {
 		return nil
 	}
+	if rawc != nil {
+		cj = bytes.Replace(cj, []byte(`"`+rawContentMark+`"`), rawc, 1)
+	}
 	v := gmsl.MustGetRoomVersion(gmsl.RoomVersion(ver))
 	pdu, err := v.NewEventFromTrustedJSONWithEventID(id, cj, false)
 	if err != nil {
@@ -151,6 +187,46 @@ func mkEventWithID(r *Rng, ver, id string, fields map[string]interface{}) *Ev {
 	}
 	return &Ev{PDU: pdu, ID: id, JSON: cj}
 }
+
+// room versions that support restricted joins (from the property text / the room version specifications, not from the code)
+var restrictedJoinVersions = map[string]bool{"8": true, "9": true, "10": true, "11": true, "12": true,
+	"org.matrix.msc3787": true, "org.matrix.hydra.11": true, "org.matrix.msc4014": true}
+
+// rawContent is the literal JSON text of an event's content.
+type rawContent []byte
+
+const rawContentMark = "@@raw-content@@"
+
+type rawMember struct {
+	key string
+	val interface{}
+}
+
+// rawObject writes the members in the given order (names and values JSON-encoded, nothing sorted or merged).
+func rawObject(ms []rawMember) rawContent {
+	var sb bytes.Buffer
+	sb.WriteByte('{')
+	for i, m := range ms {
+		if i > 0 {
+			sb.WriteByte(',')
+		}
+		k, _ := json.Marshal(m.key)
+		v, err := json.Marshal(m.val)
+		if err != nil {
+			v = []byte("null")
+		}
+		sb.Write(k)
+		sb.WriteByte(':')
+		sb.Write(v)
+	}
+	sb.WriteByte('}')
+	return rawContent(sb.Bytes())
+}
+
+// other spellings that encoding/json matches with a struct field of the exact name (simple case folding)
+var membershipVariants = []string{"Membership", "MEMBERSHIP", "memberſhip", "membershiP", "MEMBERſHIP"}
+var viaVariants = []string{"Join_authorised_via_users_server", "JOIN_AUTHORISED_VIA_USERS_SERVER", "join_authoriſed_via_uſers_ſerver",
+	"join_authorised_via_users_Server", "Join_Authorised_Via_Users_Server"}
 
 var signerUsers = []string{"@alice:hs1", "@bob:hs2", "@carol:hs3:8448", "@dave:example.org", "@eve:1.2.3.4", "@f:hs1", "@g:xn--bcher-kva.example:443"}
 var badUsers = []string{"", "@", "alice:hs1", "@alice", "@:hs1", "@alice:", "@alice:bad domain", "!alice:hs1", "@alice:hs1:notaport", "@a:h:1:2"}
@@ -162,7 +238,7 @@ type signersCase struct {
 	label string
 }
 
-func genSignersEvent(r *Rng, ver string) *signersCase {
+func genSignersEvent(r *Rng, ver string, variants bool) *signersCase {
 	f, _ := verFormat(ver)
 	sender := Pick(r, signerUsers)
 	if r.Chance(6) {
@@ -171,7 +247,7 @@ func genSignersEvent(r *Rng, ver string) *signersCase {
 	fields := map[string]interface{}{"sender": sender}
 	label := "other"
 	switch k := r.Intn(100); {
-	case k < 70:
+	case k < 70 || variants:
 		label = "member"
 		fields["type"] = "m.room.member"
 		m := Pick(r, []string{"join", "join", "join", "invite", "invite", "invite", "leave", "ban", "knock"})
@@ -247,6 +323,55 @@ func genSignersEvent(r *Rng, ver string) *signersCase {
 			}
 		}
 		var content interface{} = c
+		// K1 / K2: members under another spelling of `membership` / `join_authorised_via_users_server`, alone and
+		// next to the exact name, in either order; and the exact name twice.  They must not change who has to sign,
+		// and the auth rules (member_reading) must not read them.
+		if variants || r.Chance(14) {
+			var ms []rawMember
+			for k, v := range c {
+				ms = append(ms, rawMember{k, v})
+			}
+			sort.Slice(ms, func(i, j int) bool { return ms[i].key < ms[j].key })
+			otherUser := func() string {
+				u := Pick(r, signerUsers)
+				for k := 0; k < 4 && (domainOf(u) == domainOf(sender) || domainOf(u) == domainOf(target)); k++ {
+					u = Pick(r, signerUsers)
+				}
+				return u
+			}
+			var extra []rawMember
+			switch r.Intn(8) {
+			case 0, 1: // another membership under a variant spelling, the exact one kept
+				extra = append(extra, rawMember{Pick(r, membershipVariants), Pick(r, []string{"invite", "join", "leave", "ban"})})
+				label += "-mvariant+exact"
+			case 2: // only a variant spelling
+				for i := range ms {
+					if ms[i].key == "membership" {
+						ms[i].key = Pick(r, membershipVariants)
+					}
+				}
+				label += "-mvariant-alone"
+			case 3, 4: // an authoriser under a variant spelling (next to the exact one if the content has it)
+				extra = append(extra, rawMember{Pick(r, viaVariants), otherUser()})
+				label += "-viavariant"
+			case 5: // both
+				extra = append(extra, rawMember{Pick(r, membershipVariants), Pick(r, []string{"invite", "join", "leave"})},
+					rawMember{Pick(r, viaVariants), otherUser()})
+				label += "-mvariant-viavariant"
+			case 6: // the exact name twice
+				extra = append(extra, rawMember{"membership", Pick(r, []string{"invite", "join", "leave"})})
+				label += "-mdup"
+			case 7:
+				extra = append(extra, rawMember{"join_authorised_via_users_server", otherUser()})
+				label += "-viadup"
+			}
+			// where the extra members go decides which one a folded, last-match reader would take
+			for _, x := range extra {
+				at := r.Intn(len(ms) + 1)
+				ms = append(ms[:at], append([]rawMember{x}, ms[at:]...)...)
+			}
+			content = rawObject(ms)
+		}
 		if r.Chance(3) {
 			content = Pick(r, []interface{}{nil, "x", []int{1}, 5})
 			label += "-badcontent"
@@ -371,6 +496,16 @@ func genPseudoEvent(r *Rng) *pseudoCase {
 			case 5:
 				label += "-mapping-badsig"
 				mp["signatures"] = map[string]interface{}{domainOf(uid): Pick(r, []interface{}{map[string]interface{}{"ed25519:1": "!"}, map[string]interface{}{"k": 5}, 5, nil})}
+			case 6, 7:
+				// K3: somebody else's mapping (their key, their user ID, their server's signature — all public, copied
+				// from any join of theirs) on a join sent and self-signed by THIS sender's key
+				other, _ := pseudoKey(r)
+				if r.Chance(15) {
+					other = Pick(r, []string{"", "k", sid + "A", strings.ToLower(sid)})
+				}
+				mp["user_room_key"] = other
+				mp["signatures"] = map[string]interface{}{domainOf(uid): map[string]string{"ed25519:1": base64.RawStdEncoding.EncodeToString(r.randBytes(64))}}
+				label += "-mapping-otherkey"
 			default:
 				sg := map[string]interface{}{domainOf(uid): map[string]string{"ed25519:1": base64.RawStdEncoding.EncodeToString(r.randBytes(64))}}
 				if r.Chance(25) {
@@ -396,6 +531,29 @@ func genPseudoEvent(r *Rng) *pseudoCase {
 			}
 		}
 		fields["content"] = c
+		if r.Chance(8) {
+			// other spellings of the member names: not read (K2)
+			switch r.Intn(3) {
+			case 0:
+				c[Pick(r, membershipVariants)] = Pick(r, []string{"invite", "join", "leave"})
+				label += "-mvariant"
+			case 1:
+				if mpv, ok := c["mxid_mapping"]; ok {
+					delete(c, "mxid_mapping")
+					c[Pick(r, []string{"Mxid_mapping", "MXID_MAPPING", "mxid_mappinG"})] = mpv
+					label += "-mappingvariant"
+				}
+			case 2:
+				var ms []rawMember
+				for k, v := range c {
+					ms = append(ms, rawMember{k, v})
+				}
+				sort.Slice(ms, func(i, j int) bool { return ms[i].key < ms[j].key })
+				ms = append(ms, rawMember{Pick(r, []string{"memberſhip", "membership", "Membership"}), Pick(r, []string{"invite", "join", "leave"})})
+				fields["content"] = rawObject(ms)
+				label += "-mlast"
+			}
+		}
 		if r.Chance(3) {
 			fields["content"] = Pick(r, []interface{}{"x", []int{1}, json.RawMessage("null")})
 			label += "-badcontent"
@@ -527,7 +685,12 @@ func genSigners(o *Out, tier string, r *Rng) {
 			c = &pc.signersCase
 			selfSection = ";" + tableArg(pc.self)
 		} else {
-			c = genSignersEvent(r, ver)
+			// every fifth event is of the member-name-variant classes (K1 / K2), mostly in restricted-join versions
+			variants := i%5 == 4
+			if variants && r.Chance(70) {
+				ver = Pick(r, []string{"8", "9", "10", "11", "12"})
+			}
+			c = genSignersEvent(r, ver, variants)
 		}
 		if c == nil {
 			o.Count("construct-refused")
@@ -554,6 +717,9 @@ func genSigners(o *Out, tier string, r *Rng) {
 			o.Sample(c.label + " " + ver + " " + string(c.ev.JSON))
 		}
 		o.Do("trace", ver, arg, scriptArg(nil, true, false)+selfSection)
+		if c.ev.PDU.Type() == "m.room.member" {
+			o.Do("member_reading", ver, arg)
+		}
 		// every subset of the asked servers answering ok, the others failing; unrelated servers in both roles
 		for mask := 0; mask < 1<<uint(len(servers)); mask++ {
 			var table [][2]string
